@@ -107,7 +107,9 @@ class AccessMixin:
                     tag = 'seq'
                 val = st.attr_arr(attr)[v.v]
                 return [('ok', st, self.unbox(st, val, tag))]
-            if v.t in ('list', 'dict', 'chainmap', 'set', 'iter'):
+            if v.t == 'chainmap' and attr == 'maps':
+                return [('ok', st, sv_ref(v.v, 'cmmaps'))]
+            if v.t in ('list', 'dict', 'chainmap', 'set', 'iter', 'kwdict'):
                 return [('ok', st, SV('method', (v, attr)))]
             if v.t == 'simple':
                 return self.raise_builtin(st, 'AttributeError', [sv_str(attr)])
@@ -172,7 +174,7 @@ class AccessMixin:
         res = []
         for s2, flag in self.split(st, has):
             if flag:
-                s2.events.append(('scope-read', str(kb)))
+                s2.events.append(('scope-read',))
                 res.append(('ok', s2, self.unbox_scope(s2, val, tag)))
             else:
                 res += self.raise_builtin(s2, 'KeyError', [key])
@@ -210,7 +212,7 @@ class AccessMixin:
         else:
             st.arr['dv'] = z3.Store(st.arr['dv'], d.v, z3.Store(st.arr['dv'][d.v], kb, vb))
             st.arr['dh'] = z3.Store(st.arr['dh'], d.v, z3.Store(st.arr['dh'][d.v], kb, z3.BoolVal(True)))
-            st.events.append(('dict-store', str(d.v), str(kb)))
+            st.events.append(('dict-store',))
 
     def publish_into_container(self, st, container, val):
         # nested fresh objects stored into a container are published (containers hold plain references)
@@ -235,10 +237,14 @@ class AccessMixin:
     def dict_getitem(self, st, d, key):
         kb = self.box(st, key)
         vals, has = self.dict_rows(st, d)
+        n = self.scope_key_name(key)
+        if n is not None and n in self.cfg.frame_keys and self.local(st, d) is None:
+            st.add(has[kb])     # FrameInv: every scope frame created by glom()/_glom binds these keys (assumption, see C05/C07)
+            return [('ok', st, self.unbox(st, vals[kb], self.scope_key_tag(key)))]
         res = []
         for s2, flag in self.split(st, has[kb]):
             if flag:
-                res.append(('ok', s2, sv_ref(vals[kb])))
+                res.append(('ok', s2, self.unbox(s2, vals[kb], self.scope_key_tag(key))))
             else:
                 res += self.raise_builtin(s2, 'KeyError', [key])
         return res
@@ -291,7 +297,7 @@ class AccessMixin:
                 return self.seq_index(st, self.list_seq(st, o), idx.v, 'list')
             if o.t == 'cmmaps':
                 ci = Z.concrete_int(idx.v)
-                cm = o.v
+                cm = sv_ref(o.v, 'chainmap')
                 for _ in range(ci):
                     cm = self.cm_parent(st, cm)
                 return [('ok', st, self.cm_frame(st, cm))]
